@@ -39,7 +39,7 @@ def _drop_ext(runs):
 
 def run(sc, tier, replay):
     off = ["noroottypename", "nodupkey", "nodirid", "nofragdirs"]
-    strata = {"core-invalid": (off + ["oddids"], 0.5, "invalid"),
+    strata = {"core-invalid": (off + ["oddids", "richargs"], 0.5, "invalid"),
               "core-faults": (off, 0.5, "faults")}
     return fedcheck.run_fed_check(
         sc, tier, PID, ["C10"], "model_checking",
